@@ -201,15 +201,27 @@ MonStep(m, o) ==
           \cup (IF (r.ackClosed \/ r.respClosed) /\ ~fin1[k] THEN {"C07_closed_before_deadline"} ELSE {})
           \cup (IF tmd1[k] /\ ~(r.ackClosed /\ r.respClosed) THEN {"C07_not_closed_after_timeout"} ELSE {})
       sameLT == \E i, j \in Queries : i < j /\ o.q[i].st = 2 /\ o.q[j].st = 2 /\ o.q[i].lt = o.q[j].lt
+      \* not a clause of C07, only recorded: a reply addressed to a registered query that was neither past its
+      \* deadline nor closed, had not delivered this node's reply yet and had room in its channel, was discarded
+      dropped == /\ f.op = "reply" /\ f.idr # 0
+                 /\ LET a == o.q[f.idr] IN
+                    /\ a.st = 2 /\ a.lt = f.lt /\ ~fin1[f.idr] /\ ~a.locked /\ ~a.closed
+                    /\ IF f.ack = 1 THEN f.from \notin { a.acks[i] : i \in DOMAIN a.acks } /\ a.na < Cap
+                                    ELSE f.from \notin { a.resps[i] : i \in DOMAIN a.resps } /\ a.nr < Cap
   IN [ bad  |-> m.bad \cup recvBad
                  \cup (IF o.pan = 1 THEN {"C07_closed_twice"} ELSE {})
                  \cup (IF o.pan = 2 THEN {"C07_send_after_close"} ELSE {})
                  \cup (IF o.pan > 2 THEN {"C07_panic"} ELSE {}),
-       tags |-> m.tags \cup (IF sameLT THEN {"same_ltime_queries"} ELSE {}),
+       tags |-> m.tags \cup (IF sameLT THEN {"same_ltime_queries"} ELSE {})
+                       \cup (IF dropped THEN {"addressed_reply_discarded"} ELSE {}),
        rep  |-> rep1, fin |-> fin1, tmd |-> tmd1, ackc |-> ackc1, respc |-> respc1 ]
 
 \* the monitor's inputs as the model itself produces them
+RECURSIVE SetSeq(_)
+SetSeq(S) == IF S = {} THEN <<>> ELSE LET x == CHOOSE y \in S : TRUE IN <<x>> \o SetSeq(S \ {x})
 ModelObs(s) ==
-  [ q   |-> [k \in Queries |-> [st |-> IF s.q[k].st = 2 THEN 2 ELSE 0, lt |-> s.q[k].lt]],
+  [ q   |-> [k \in Queries |-> [st |-> IF s.q[k].st = 2 THEN 2 ELSE 0, lt |-> s.q[k].lt, locked |-> FALSE,
+                                 acks |-> SetSeq(s.q[k].acks), resps |-> SetSeq(s.q[k].resps), closed |-> s.q[k].closed,
+                                 na |-> Len(s.q[k].ackCh), nr |-> Len(s.q[k].respCh)]],
     beg |-> s.out.beg, fin |-> s.out.fin, rcv |-> s.out.rcv, pan |-> 0 ]
 =============================================================================
